@@ -158,6 +158,11 @@ Theorem C04_numpy_expected : forall user ua ilines xlines n_xl f t,
 Proof. exact np_expected_cases. Qed.
 Print Assumptions C04_numpy_expected.
 
+(* the hypothesis "header keys are fields of the table" of the NumPy theorem is what the converter asserts (D36 repair;
+   generated from the assert statement of NumpyConverter.__init__) *)
+Example C04_numpy_keys_guarded : hx_np_keys_in_table = true /\ hx_np_sorted_int32 = true.
+Proof. split; reflexivity. Qed.
+
 (* non-vacuity: segyio's 89 fields are a well-formed field list, and a concrete 2 x 3 header set (a duplicated pair of
    varying columns is excluded, negative and extreme values included) meets the heuristic hypothesis *)
 Example C04_nonvacuous :
